@@ -428,3 +428,20 @@ package sem
 //@   ensures[bad-always-found] negAt(a, r)
 //@   loop 1:
 //@     invariant forall k Int :: 0 <= k && k < #i ==> !negAt(a, k)
+
+// ---- fifth batch: captured locals
+//@ callback hook()
+//@   modifies heap
+//@ func capturedSurvives(f) r
+//@   props E00
+//@   ensures[ok-captured-local-survives-the-call] r == 7
+//@   modifies heap
+//@ func capturedEscapes(f) r
+//@   props E00
+//@   ensures[bad-escaped-local-may-change] r == 7
+//@   modifies heap
+//@ func capturedInLoop(n) r
+//@   props E00
+//@   ensures[bad-unchanged-by-the-loop] r == 0
+//@   ensures[inc-counts] n >= 0 ==> r == n
+//@   modifies heap
